@@ -34,8 +34,12 @@ fn mem_with(pre: usize, init: &[u8; PRE_MAX]) -> Memory {
     let mut m = Memory::default();
     m.grow(pre);
     assert!(m.len() == pre);
-    if pre > 0 {
-        m[..pre].copy_from_slice(&init[..pre]);
+    let mut i = 0;
+    while i < PRE_MAX {
+        if i < pre {
+            m[i] = init[i];
+        }
+        i += 1;
     }
     m
 }
@@ -63,6 +67,7 @@ fn copy_to_case(pre: usize, dest_off: usize, dest_size: usize, data_len: usize, 
 
     let q: usize = kani::any();
     if q < want_len {
+        let got = mem[q];
         let old = if q < pre { init[q] } else { 0 };
         if dest_off <= q && q < end {
             let i = (q - dest_off) as u64;
@@ -70,11 +75,11 @@ fn copy_to_case(pre: usize, dest_off: usize, dest_size: usize, data_len: usize, 
             let small = src.0[1] == 0 && src.0[2] == 0 && src.0[3] == 0 && src.0[0] < data_len as u64;
             let in_range = small && src.0[0] + i < data_len as u64;
             if in_range {
-                assert!(mem[q] == data[(src.0[0] + i) as usize]);
+                assert!(got == data[(src.0[0] + i) as usize]);
             } else if zero_fill {
-                assert!(mem[q] == 0);
+                assert!(got == 0);
             } else {
-                assert!(mem[q] == old);
+                assert!(got == old);
             }
             // the whole source window lies beyond the data while the destination byte is dirty
             kani::cover!(zero_fill && !small && data_len > 0 && q < pre && init[q] == 0xAA);
@@ -86,7 +91,7 @@ fn copy_to_case(pre: usize, dest_off: usize, dest_size: usize, data_len: usize, 
             kani::cover!(!zero_fill && !in_range && q < pre && init[q] == 0xAA);
             kani::cover!(q >= pre); // window in freshly grown memory
         } else {
-            assert!(mem[q] == old);
+            assert!(got == old);
             kani::cover!(q < pre && init[q] == 0xAA && q == end && dest_size > 0);
             kani::cover!(q < pre && init[q] == 0xAA && q + 1 == dest_off && dest_size > 0);
         }
@@ -183,21 +188,6 @@ fn c17_copy_to_memory_wide() {
         p += 1;
     }
     kani::cover!(p == 3);
-}
-
-#[kani::proof]
-#[kani::unwind(70)]
-fn x_one() {
-    copy_to_case(32, 3, 6, 4, U256::from(2u64));
-    kani::cover!(true);
-}
-
-#[kani::proof]
-#[kani::unwind(70)]
-fn x_two() {
-    copy_to_case(32, 3, 6, 4, U256::from(2u64));
-    copy_to_case(32, 28, 8, 4, U256::from(1u64));
-    kani::cover!(true);
 }
 
 /// MCOPY through `copy_within_memory(memory, dest, src, size)`, one concrete geometry.
